@@ -91,6 +91,10 @@ class PhasePredictor(QTable):
             tstop = self["tmid"] + self["span"] / 2
             intervals = sorted(zip(tstart, tstop), key=lambda x: x[1])
 
+            if not intervals:
+                self._intervals = ()
+                return self._intervals
+
             merged = []
             start, end = intervals.pop()
             while intervals:
@@ -108,19 +112,21 @@ class PhasePredictor(QTable):
     def _get_index_and_dt(self, times):
         """Check if timestamps are within predictor range."""
         check = ((a <= times) & (times <= b) for a, b in self.intervals)
-        check = functools.reduce(operator.or_, check)
+        check = functools.reduce(operator.or_, check, np.zeros(times.shape, bool))
 
         if not np.all(check):
             raise ValueError("Some timestamps outside predictor range!")
 
         span_ends = self["tmid"] + self["span"] / 2
-        # Compare MJDs on one time scale (times may be given in e.g. TAI or TT).
         # Rows need not be in time order (e.g. after ``predictor[::-1]``).
+        # Compare seconds since the earliest span end (a float64 MJD cannot
+        # tell a time just after a span end from the span end itself).
         order = np.argsort(span_ends.mjd)
-        index = np.searchsorted(
-            span_ends.mjd, getattr(times, span_ends.scale).mjd, sorter=order
-        )
-        index = order[index]
+        ref = span_ends[order[0]]
+        ends = (span_ends - ref).to_value(u.s)
+        order = np.argsort(ends)
+        index = np.searchsorted(ends, (times - ref).to_value(u.s), sorter=order)
+        index = order[np.minimum(index, len(order) - 1)]
         dt = (times - self["tmid"][index]).to_value(u.s)
         return index, dt
 
@@ -202,7 +208,13 @@ class PhasePredictor(QTable):
             return b
 
         x = scipy.optimize.brentq(func, 0.0, length, xtol=1e-12, rtol=1e-15)
-        return a + x * u.s
+        t = a + x * u.s
+        # A float64 offset from the start of a long interval is too coarse:
+        # polish the root with Newton steps on the timestamp itself.
+        for _ in range(2):
+            step = (self(t) - phase).value / self.f0(t).value
+            t = max(a, min(b, t - step * u.s))
+        return t
 
     @classmethod
     def from_polyco(cls, path):
